@@ -8,6 +8,7 @@ import (
 	"runtime/debug"
 	"sort"
 	"strings"
+	"sync"
 	"time"
 )
 
@@ -66,6 +67,7 @@ type WorkerCfg struct {
 	Known      map[string]bool   `json:"known"`
 	KnownSites map[string]string `json:"known_sites"`
 	TmoMs      int               `json:"tmo_ms"`
+	SolverPar  int               `json:"solver_par"`
 }
 
 func workerMain(cfgPath string) {
@@ -258,51 +260,84 @@ func (e *Exec) discharge(cfg *WorkerCfg) []OblResult {
 	}
 	siteLive := map[string]bool{}
 	siteSeen := map[string]*Obl{}
+	// assertion / panic / unwinding obligations are independent: decide them on a pool of solver processes
+	var work []*Obl
 	for _, o := range e.obls {
 		switch o.Kind {
 		case "assert", "panic", "unwind", "alloc":
-		default:
-			continue
+			work = append(work, o)
 		}
-		asserts := append(append([]*Term(nil), o.pc...), o.cond)
-		known := o.KnownID != "" && e.known[o.KnownID] && o.kcond != nil
-		if o.Kind == "panic" && !known {
-			if id, ok := cfg.KnownSites[e.harnessPrefix()+"|"+o.Site]; ok {
-				// site-keyed known finding: the whole site is attributed
-				a := e.solver.Check(Query{asserts: asserts, tmoMs: tmo, purpose: o.Kind})
-				r := OblResult{Kind: o.Kind, Msg: o.Msg, Site: o.Site, KnownID: id, Status: a.status, Solver: a.solver, Secs: a.secs}
-				if a.status == "sat" {
-					r.Witness = true
-					r.Model = e.fullModel(a.model)
+	}
+	results := make([][]OblResult, len(work))
+	// group obligations that share their path condition: one incremental session per group
+	groupOf := map[string][]int{}
+	var gkeys []string
+	for i, o := range work {
+		k := pcKey(o.pc)
+		if _, ok := groupOf[k]; !ok {
+			gkeys = append(gkeys, k)
+		}
+		groupOf[k] = append(groupOf[k], i)
+	}
+	par := cfg.SolverPar
+	if par < 1 {
+		par = 1
+	}
+	// large groups are split so that all solver processes stay busy
+	var groups [][]int
+	for _, k := range gkeys {
+		g := groupOf[k]
+		chunk := (len(g) + par - 1) / par
+		if chunk < 8 {
+			chunk = 8
+		}
+		for len(g) > 0 {
+			n := chunk
+			if n > len(g) {
+				n = len(g)
+			}
+			groups = append(groups, g[:n])
+			g = g[n:]
+		}
+	}
+	if par > len(groups) {
+		par = len(groups)
+	}
+	var wg sync.WaitGroup
+	next := make(chan []int, len(groups))
+	for _, g := range groups {
+		next <- g
+	}
+	close(next)
+	solvers := []*Solver{e.solver}
+	for k := 1; k < par; k++ {
+		solvers = append(solvers, NewSolver())
+	}
+	for k := 0; k < par; k++ {
+		wg.Add(1)
+		go func(so *Solver) {
+			defer wg.Done()
+			for g := range next {
+				var sess *IncSession
+				if len(g) >= 3 && os.Getenv("GOSYM_NOINC") == "" {
+					sess = so.NewSession(work[g[0]].pc)
 				}
-				out = append(out, r)
-				continue
-			}
-		}
-		if known {
-			main := append(append([]*Term(nil), asserts...), Not(o.kcond))
-			a := e.solver.Check(Query{asserts: main, tmoMs: tmo, purpose: o.Kind})
-			r := OblResult{Kind: o.Kind, Msg: o.Msg, Site: o.Site, Status: a.status, Solver: a.solver, Secs: a.secs, Trivial: a.solver == "simplifier"}
-			if a.status == "sat" {
-				r.Model = e.fullModel(a.model)
-			}
-			out = append(out, r)
-			wit := append(append([]*Term(nil), asserts...), o.kcond)
-			aw := e.solver.Check(Query{asserts: wit, tmoMs: tmo, purpose: "known-witness"})
-			if aw.status == "sat" {
-				out = append(out, OblResult{Kind: o.Kind, Msg: o.Msg, Site: o.Site, KnownID: o.KnownID, Status: "sat", Witness: true, Solver: aw.solver, Secs: aw.secs, Model: e.fullModel(aw.model)})
-			}
-		} else {
-			a := e.solver.Check(Query{asserts: asserts, tmoMs: tmo, purpose: o.Kind})
-			r := OblResult{Kind: o.Kind, Msg: o.Msg, Site: o.Site, Status: a.status, Solver: a.solver, Secs: a.secs, Trivial: a.solver == "simplifier"}
-			if a.status == "sat" {
-				r.Model = e.fullModel(a.model)
-				if debugOn {
-					fmt.Fprintf(os.Stderr, "SAT %s %q: cond=%s\n", o.Kind, o.Msg, show(o.cond, 8))
+				for _, i := range g {
+					results[i] = e.dischargeOne(cfg, so, sess, work[i], tmo)
+				}
+				if sess != nil {
+					sess.Close()
 				}
 			}
-			out = append(out, r)
-		}
+		}(solvers[k])
+	}
+	wg.Wait()
+	for k := 1; k < par; k++ {
+		e.solver.stats.add(solvers[k].stats)
+		solvers[k].Close()
+	}
+	for i, o := range work {
+		out = append(out, results[i]...)
 		if o.Kind == "assert" {
 			key := o.Site + "|" + o.Msg
 			if !siteLive[key] {
@@ -330,9 +365,14 @@ func (e *Exec) discharge(cfg *WorkerCfg) []OblResult {
 		}
 		live := false
 		unknown := false
+		tried := 0
 		for _, o := range e.obls {
 			if o.Kind != "assert" || o.Site+"|"+o.Msg != k {
 				continue
+			}
+			if tried++; tried > 4 {
+				unknown = true // not all instances tried: never reported as dead on this basis alone
+				break
 			}
 			a := e.solver.Check(Query{asserts: o.pc, tmoMs: tmo, purpose: "vacuity"})
 			if a.status == "sat" {
@@ -343,12 +383,72 @@ func (e *Exec) discharge(cfg *WorkerCfg) []OblResult {
 				unknown = true
 			}
 		}
+		st := "sat"
 		if !live {
-			st := "unsat"
+			st = "unsat"
 			if unknown {
 				st = "unknown"
 			}
-			out = append(out, OblResult{Kind: "vacuity", Msg: siteSeen[k].Msg, Site: siteSeen[k].Site, Status: st})
+		}
+		out = append(out, OblResult{Kind: "vacuity", Msg: siteSeen[k].Msg, Site: siteSeen[k].Site, Status: st})
+	}
+	// sites already known to be live are reported too: liveness is aggregated per harness by the driver
+	for _, k := range keys {
+		if siteLive[k] {
+			out = append(out, OblResult{Kind: "vacuity", Msg: siteSeen[k].Msg, Site: siteSeen[k].Site, Status: "sat"})
+		}
+	}
+	return out
+}
+
+// dischargeOne decides one obligation (and, for a listed known finding, its witness).
+func (e *Exec) dischargeOne(cfg *WorkerCfg, so *Solver, sess *IncSession, o *Obl, tmo int) []OblResult {
+	var out []OblResult
+	// check decides pc ∧ extra: through the incremental session when it gives a clean answer
+	check := func(extra []*Term, purpose string) Answer {
+		if sess != nil && !hasHardArith(extra) {
+			if a, ok := sess.Check(extra, tmo); ok {
+				return a
+			}
+		}
+		return so.Check(Query{asserts: append(append([]*Term(nil), o.pc...), extra...), tmoMs: tmo, purpose: purpose})
+	}
+	{
+		known := o.KnownID != "" && e.known[o.KnownID] && o.kcond != nil
+		if o.Kind == "panic" && !known {
+			if id, ok := cfg.KnownSites[e.harnessPrefix()+"|"+o.Site]; ok {
+				// site-keyed known finding: the whole site is attributed
+				a := check([]*Term{o.cond}, o.Kind)
+				r := OblResult{Kind: o.Kind, Msg: o.Msg, Site: o.Site, KnownID: id, Status: a.status, Solver: a.solver, Secs: a.secs}
+				if a.status == "sat" {
+					r.Witness = true
+					r.Model = e.fullModel(a.model)
+				}
+				out = append(out, r)
+				return out
+			}
+		}
+		if known {
+			a := check([]*Term{o.cond, Not(o.kcond)}, o.Kind)
+			r := OblResult{Kind: o.Kind, Msg: o.Msg, Site: o.Site, Status: a.status, Solver: a.solver, Secs: a.secs, Trivial: a.solver == "simplifier"}
+			if a.status == "sat" {
+				r.Model = e.fullModel(a.model)
+			}
+			out = append(out, r)
+			aw := check([]*Term{o.cond, o.kcond}, "known-witness")
+			if aw.status == "sat" {
+				out = append(out, OblResult{Kind: o.Kind, Msg: o.Msg, Site: o.Site, KnownID: o.KnownID, Status: "sat", Witness: true, Solver: aw.solver, Secs: aw.secs, Model: e.fullModel(aw.model)})
+			}
+		} else {
+			a := check([]*Term{o.cond}, o.Kind)
+			r := OblResult{Kind: o.Kind, Msg: o.Msg, Site: o.Site, Status: a.status, Solver: a.solver, Secs: a.secs, Trivial: a.solver == "simplifier"}
+			if a.status == "sat" {
+				r.Model = e.fullModel(a.model)
+				if debugOn {
+					fmt.Fprintf(os.Stderr, "SAT %s %q: cond=%s\n", o.Kind, o.Msg, show(o.cond, 8))
+				}
+			}
+			out = append(out, r)
 		}
 	}
 	return out
